@@ -170,6 +170,7 @@ def run_shard(ctx: Ctx, acc: Acc):
         vio, obs = run_case(role, steps)
         for k, v in obs.items():
             acc.count(k, v)
+        acc.count("steps", len(steps))
         if obs.get("partial-drain-then-send"):
             acc.nontrivial(role, steps)
         if i < 2:
